@@ -73,7 +73,9 @@ impl<const N: usize> TryFrom<&User> for ServerUser<N> {
     fn try_from(value: &User) -> Result<Self, Self::Error> {
         let mut key = [0; N];
         let mut identity_hash = [0; 16];
-        Base64::decode(&value.password, &mut key)?;
+        if Base64::decode(&value.password, &mut key)?.len() != N {
+            return Err(base64ct::Error::InvalidLength);
+        }
         let hash = blake3::hash(&key);
         identity_hash.copy_from_slice(&hash.as_bytes()[..16]);
         Ok(Self { name: value.name.clone(), key, identity_hash })
